@@ -298,11 +298,15 @@ func vfErrClass(err error) string {
 // hold the same session: a hook result the library cannot reconcile with its own decision must fail the handshake.
 func vfC01Hooked(t *testing.T, res *vfResult, idx int) {
 	kinds := []string{"server-srtp-other-common-profile", "server-srtp-unoffered-profile", "server-alpn-other-offered", "server-alpn-unoffered",
-		"server-cid-rewritten", "client-srtp-list-reordered", "client-alpn-list-reordered", "server-ems-dropped", "server-suite-other-offered"}
+		"server-cid-rewritten", "client-srtp-list-reordered", "client-alpn-list-reordered", "server-ems-dropped", "server-suite-other-offered",
+		"server-alpn-named-by-hook-only"}
 	kind := kinds[idx%len(kinds)]
 	resumedRound := (idx/len(kinds))%2 == 1
 	cfg := vfBaseCfg(vfSuiteInfo{Name: "default", Auth: "ecdsa"}, "ecdsa")
 	cfg.SRTP, cfg.ALPN, cfg.CIDc, cfg.CIDs, cfg.Store = 2, 2, 4, 4, resumedRound
+	if kind == "server-alpn-named-by-hook-only" {
+		cfg.ALPN = 3 // the server has no protocol list of its own: the application answers ALPN from its ServerHello hook
+	}
 	cS, sS := vfNewMemStore("c"), vfNewMemStore("s")
 	editExt := func(exts []extension.Value, typ extension.Type, f func([]byte) []byte) []extension.Value {
 		out := make([]extension.Value, 0, len(exts))
@@ -355,6 +359,12 @@ func vfC01Hooked(t *testing.T, res *vfResult, idx int) {
 
 					return append([]byte{0, byte(len(p) + 1), byte(len(p))}, p...)
 				})
+
+				return &sh
+			}))
+		case "server-alpn-named-by-hook-only":
+			so = append(so, WithServerHelloMessageHook(func(sh handshake.MessageServerHello) handshake.Message {
+				sh.Extensions = append(sh.Extensions, extension.Raw{Type: extension.TypeALPN, Data: []byte{0, 2, 1, 'b'}})
 
 				return &sh
 			}))
@@ -492,7 +502,7 @@ func TestVF_C01(t *testing.T) {
 	vfBubbles(t, total, func(t *testing.T, i int) {
 		vfC01Case(t, res, i, suites[i%len(suites)])
 	})
-	vfBubbles(t, 18, func(t *testing.T, i int) { vfC01Hooked(t, res, i) })
+	vfBubbles(t, 20, func(t *testing.T, i int) { vfC01Hooked(t, res, i) })
 	for _, s := range suites {
 		if res.Get("ok/"+s.Name) == 0 {
 			res.Inconc("no successful handshake observed for suite " + s.Name)
